@@ -6,8 +6,10 @@ F13 = "uni chan=move_atomic N=8 M=2 k=2 origin=0 ; drive:0 ; drive:1 ; send:7 ; 
 
 F15 = "uni chan=move_atomic N=8 M=1 k=1 origin=0 ; drive:0 ; send:1 send:2 send:3 ; S 1 1 1 1 1 1 1 1 1 1 1 1 1 1 1 1 1 1 0 0 0 0 0 0 0 0 0 0 0 0 0 0 0 0 0 0 0 0 0 0 0 0 0 0 0 0 0 0 0 0 0 0 0 0 0 0 0 0 1 1 1 1 0 0 0 0 0 0 0 1 0 1 0 1"
 
+F17 = "uni chan=crossbeam N=4 M=1 k=1 origin=0 ; send:1 send:2 send:3 send:4 ; drive:0 ; S " + "0 " * 19 + "1 " * 40 + "0 " * 6 + "1 " * 6 + "0 1 " * 6
+
 class C04(Prop):
-    pid = "C04"; prop_file = ["C04.v", "C04W.v"]
+    pid = "C04"; prop_file = ["C04.v", "C04W.v", "C04Z.v"]
     rule = ("entry points: send, send_with, send_with_async (ready setter), reserve_slot + try_send_reserved / try_cancel_slot_reserve (movable atomic channel; the movable "
             "full-sync channel does not implement reservations); cases: 1-3 producers (send / send_with, 1-4 events each) against 1..MAX_STREAMS executor-driven streams (MAX_STREAMS in {1,2}) on the movable atomic and movable "
             "full-sync Uni channels, random bursty schedule then 60 round-robin rounds to quiescence; non-trivial = a context switch inside another thread's operation AND a Pending answer; "
@@ -23,7 +25,8 @@ class C04(Prop):
         en = [unigen.parse_case_line(F2)] + [unigen.gen_entry_case(rng, "move_atomic") for _ in range(n)]
         fa = [unigen.gen_entry_case(rng, "move_full_sync", reserve_ok=False) for _ in range(n // 3)]
         return [Suite("uni_move_full_sync", unigen.HEADER, fs), Suite("uni_move_atomic", unigen.HEADER, at),
-                Suite("uni_move_atomic_entry_points", unigen.XHEADER, en), Suite("uni_move_full_sync_async", unigen.HEADER, fa)
+                Suite("uni_move_atomic_entry_points", unigen.XHEADER, en), Suite("uni_move_full_sync_async", unigen.HEADER, fa),
+                Suite("uni_crossbeam_known_finding", unigen.XHEADER, [unigen.parse_case_line(F17.strip())])
                 ] + unigen.oracle_only_suites(rng, n // 3, profile="drive", tail_rounds=60) + [
                 # the executor passes a different waker at some polls: movable kinds in lock-step with the machine of Chan/ChanW.v, the others oracle only
                 Suite("waker_switch_%s" % ch, unigen.XHEADER, [unigen.gen_waker_switch_case(rng, ch) for _ in range(n // 6)])
